@@ -50,6 +50,19 @@ CLAIMED = {
              'the implementation behaves like the model on adjacent blocks is exactly what X-doc and the law oracle check.',
         technique='Coq proof (induction over the dispatch loop; look-ahead lemmas for every reader) + bounded kernel sweep + extracted-model correspondence + law oracle',
         design='5/C05'),
+    'C14': dict(
+        text='(a) Theorem over ALL lines, for the block-start patterns regenerated from /repo: a line whose first character is not a marker character cannot start '
+             'any block kind other than a paragraph or a table, and the ASCII marker characters are exactly white space # * + - 0-9 < > [ _ ` ~ (so ". " and ") " '
+             'never open a list) - by the verified first-character analysis of the regex engine. (b) Kernel-checked: the whole pipeline renders every paragraph of '
+             'one line x 1-3 tokens or two lines x 1-2 tokens over a 16-token vocabulary that passes an inertness predicate written from the CommonMark rules '
+             '(independent of the parser model) as <p> + escaped text + </p>. (c) Oracle on the implementation: 143-token vocabulary, 1-4 lines, exhaustive 1- and '
+             '2-token lines, same predicate; model tied by X-doc and by comparing the model\'s HTML.',
+        note='PARTIAL: the pass-through statement itself is bounded in the kernel (family stated in the theorem) and sampled beyond. Trusted: Coq kernel incl. vm_compute, '
+             'extraction, translators, the hand-written pipeline model (correspondence-checked), the inertness predicate (python and Coq twins; conservative - '
+             'texts with ~~, backticks, backslashes, tabs are skipped).',
+        technique='Coq proof (verified regex first-character analysis with reflective side conditions; bounded kernel sweep guarded by an independent predicate) '
+                  '+ extracted-model correspondence + oracle on the implementation',
+        design='5/C14'),
     'C17': dict(
         text='Theorems over ALL token trees about a Gallina model of LaTeXRenderer: template braces and \\begin/\\end pairs properly nested, every text '
              'item a sequence of ordinary characters and escape sequences (declarative predicate Esc), every \\href/\\url argument safe, \\verb delimiter '
